@@ -21,6 +21,7 @@ MUTATORS = [
     "cd sub", "pushd / >/dev/null", "umask 077", "ulimit -n 64", "ulimit -c 0", "set -- a b c", "shift", "exec 9> f9", "exec > f.out",
     "exec 2> f.err", "exec 8< in", "exit 3", "IFS=:", "PATH=/nonexistent", "OPTIND=5", "declare -A m=([k]=v)", "keepme+=x", "keeparr[1]=z",
     "declare -i keepme", "export -n keepexp", "declare +x keepexp", "local l=1 2>/dev/null", "hash -r", "set +o braceexpand", "shopt -s dotglob",
+    "hash -p /bin/true mytrue", "hash -d keeph", "ls / >/dev/null", "getopts abc gko -abc", "getopts abc gko -abc; getopts abc gko -abc", "OPTIND=1",
     "readonly keepme", "unset keeparr", "set -o noclobber", "enable -n echo 2>/dev/null", "declare -l keepme", "POSIXLY_CORRECT=1",
 ]
 
@@ -46,11 +47,17 @@ CONTEXTS = {
 PRE_FOR_CONTEXT = {"pipe_last_monitor_lastpipe": "set -m; shopt -s lastpipe\n"}
 
 VOLATILE = ["_", "RANDOM", "SECONDS", "BASH_COMMAND", "LINENO", "PIPESTATUS", "BASHPID", "FUNCNAME", "BASH_LINENO", "BASH_SOURCE", "EPOCHSECONDS",
-            "EPOCHREALTIME", "SRANDOM", "BASH_ARGC", "BASH_ARGV", "PPID", "x", "_dn", "BASH_CMDS", "n", "BASH_SUBSHELL", "COLUMNS", "LINES", "OLDPWD_UNUSED", "BRUSH_VERSION"]
+            "EPOCHREALTIME", "SRANDOM", "BASH_ARGC", "BASH_ARGV", "PPID", "x", "_dn", "n", "BASH_SUBSHELL", "COLUMNS", "LINES", "OLDPWD_UNUSED", "BRUSH_VERSION"]
 
 PRELUDE = r'''keepme=orig; keeparr=(a b c); export keepexp=ex; keepf() { echo kept; }; alias keepa=ls
 mkdir -p sub; printf 'l1\nl2\n' > in
 set -- p1 "p 2"
+# the command hash table is parent state too: every command the contexts run by name is run once here, so that the table
+# (BASH_CMDS / the Shell struct's program cache) does not change between the two parent dumps through the parent's own doing
+hash -p /bin/cat keeph 2>/dev/null
+cat /dev/null; msleep 0; echo | cat > /dev/null
+# hidden state only behaviour shows: the parent is in the middle of an option cluster when the subshell runs
+OPTIND=1; getopts abc gko -abc
 dump() {
   local _dn=$1; shift
   {
@@ -78,7 +85,7 @@ def script(mutators, ctx, shell):
     if ctx == "func_subshell":
         # the function is part of the parent's state: define it before the first dump
         pre, body = body.split("; fs")[0] + "\n", "fs"
-    s = PRELUDE + pre + 'dump before "$@"\n' + body + '\necho "@st $?"\n' + 'dump after "$@"\necho "@end"\n'
+    s = PRELUDE + pre + 'dump before "$@"\n' + body + '\necho "@st $?"\n' + 'dump after "$@"\ngetopts abc gko -abc; echo "@gk $gko $OPTIND"\necho "@end"\n'
     return s
 
 
@@ -101,7 +108,7 @@ def mask_json(j):
     def scrub(x):
         if isinstance(x, dict):
             return {k: scrub(v) for k, v in x.items()
-                    if k not in ("last_exit_status", "last_exit_status_change_count", "last_pipeline_statuses", "program_location_cache",
+                    if k not in ("last_exit_status", "last_exit_status_change_count", "last_pipeline_statuses",
                                  "last_stopwatch_time", "last_stopwatch_offset", "depth", "call_stack", "entry_count") and k not in VOLATILE}
         if isinstance(x, list):
             return [scrub(v) for v in x]
@@ -179,11 +186,19 @@ def judge(run, case, selftest=False):
     diffs = compare_dumps(res)
     if ck:
         diffs.append(("crash", ck))
+    # behavioural continuation: the parent was at the first letter of `-abc` before the subshell; whatever getopts calls the
+    # subshell made, the parent's next call yields the second letter (definitional; bash self-test below)
+    gk = [l for l in res["out"].split(b"\n") if l.startswith(b"@gk")]
+    if b"@end" in res["out"] and gk != [b"@gk b 1"]:
+        diffs.append(("getopts-cursor", "parent's next getopts after the subshell gave %r, expected [b'@gk b 1']" % gk))
     inside_effect = res["inside.txt"] is not None and (mask_text(res["inside.txt"]) != mask_text(res["before.txt"] or "") or
                                                        res["inside.args"] != res["before.args"] or res["inside.fd"] != res["before.fd"])
     if selftest:
         hres, hr = run_one("bash", mutators, ctx)
         hd = compare_dumps(hres)
+        hgk = [l for l in hres["out"].split(b"\n") if l.startswith(b"@gk")]
+        if b"@end" in hres["out"] and hgk != [b"@gk b 1"]:
+            hd.append(("getopts-cursor", repr(hgk)))
         run.count("bash_selftest_runs")
         if hd:
             run.selftest_fail.append((mutators, ctx, hd))
